@@ -31,6 +31,14 @@ type vfDetCfg struct {
 	TMin, TMax    uint16
 	PreviewFrames int // preview-secs*fps as seen by the detector
 	Verbose       bool `json:",omitempty"` // the logging-only 'verbose' setting: must not change any result
+	CamFPS        int  `json:",omitempty"` // frame rate the camera announces (0 = 9): detection does not depend on it
+}
+
+func (c vfDetCfg) fps() int {
+	if c.CamFPS > 0 {
+		return c.CamFPS
+	}
+	return 9
 }
 
 type vfMut struct {
@@ -210,6 +218,7 @@ func vfGenDetCfg(t *rapid.T, dynamic bool, big bool) vfDetCfg {
 	c.Dynamic = dynamic
 	c.PreviewFrames = rapid.IntRange(0, 6).Draw(t, "previewframes")
 	c.Verbose = rapid.IntRange(0, 3).Draw(t, "verbose") == 0
+	c.CamFPS = rapid.SampledFrom([]int{0, 0, 1, 2, 8, 10, 30, 60}).Draw(t, "camfps")
 	if !dynamic && rapid.IntRange(0, 3).Draw(t, "stray_bounds") == 0 {
 		// temp-thresh-min / max are dynamic-threshold settings: with a fixed threshold they must not matter
 		c.TMin = rapid.SampledFrom([]uint16{0, 500, 3200, 40000}).Draw(t, "stray_tmin")
@@ -327,7 +336,7 @@ func vfGenBase(t *rapid.T, c vfDetCfg) uint16 {
 // vfDetRun feeds absolute frames to a fresh detector, returning Detect() per frame; after (if not nil)
 // is called after each frame with the detector for in-package inspection.
 func vfDetRun(c vfDetCfg, fr []vfDetFrame, pix [][]uint16, after func(n int, d *motionDetector, f *cptvframe.Frame)) []bool {
-	cam := vfCam{c.W, c.H, 9}
+	cam := vfCam{c.W, c.H, c.fps()}
 	d := NewMotionDetector(c.motionConf(), c.PreviewFrames, cam)
 	f := cptvframe.NewFrame(cam)
 	out := make([]bool, len(fr))
